@@ -310,6 +310,24 @@ Definition valset_epoch_end (minself : Z) (nprev : nat) (ops : list voper) : opt
   end.
 
 (* ------------------------------------------------------------------------------------------ *)
+(* 5f. AllocateTokensToValidator (distribution epoch hook): commission = tokens * rate, shared = tokens - commission;  *)
+(*     DecCoins.Sub panics when rate > 1. The only validation of a stored commission is OperatorInfo.ValidateBasic ->    *)
+(*     stakingtypes CommissionRates.Validate (RegisterOperatorReq; there is no commission update message).              *)
+(*     Rates are LegacyDec scaled by P.                                                                                  *)
+(* ------------------------------------------------------------------------------------------ *)
+Definition commission_valid (rate maxrate maxchange : Z) : bool :=
+  negb (maxrate <? 0) && negb (P <? maxrate) && negb (rate <? 0) && negb (maxrate <? rate) &&
+  negb (maxchange <? 0) && negb (maxrate <? maxchange).
+(* tokens and rate scaled by P; MulDec rounds (banker), which never exceeds tokens for rate <= 1 *)
+Definition validator_split (tokens rate : Z) : outcome (Z * Z) :=
+  let commission := (tokens * rate + P / 2) / P in
+  if tokens - commission <? 0 then Panic else Ok (commission, tokens - commission).
+(* the operator registry: stored commission rates *)
+Definition register_operator (rate maxrate maxchange : Z) (stored : list Z) : list Z :=
+  if commission_valid rate maxrate maxchange then stored ++ [rate] else stored.
+Definition rates_ok (stored : list Z) : bool := forallb (fun r => (0 <=? r) && (r <=? P)) stored.
+
+(* ------------------------------------------------------------------------------------------ *)
 (* 6. block-level composition                                                                  *)
 (* ------------------------------------------------------------------------------------------ *)
 Record state := mkSt {
@@ -419,6 +437,9 @@ Inductive path :=
 | PSlashUndel (native : bool) (amount : Z) (props : list Z) (actuals : list Z)
     (* one pending undelegation, the proportions of the slashes that reached it (as stored in the slash records),
        the ActualCompletedAmount observed after each slash; c_obs = delegation EndBlock at the maturity height *)
+| PCommission (rate maxrate maxchange : Z) (accepted : bool)
+    (* MsgRegisterOperator (ValidateBasic + message server) with these commission rates, accepted or not; when
+       accepted the operator becomes a validator and a distribution epoch ends with fees: c_obs *)
 | PValset (nprev eligible_now : nat)
     (* dogfood epoch end: validators before, operators eligible now; c_later_ok = the real CometBFT
        ValidatorSet.UpdateWithChangeSet accepted the update list returned by the real EndBlock *)
@@ -455,6 +476,8 @@ Definition check_case (c : case) : option nat :=
     | PSlashUndel native amount ps actuals =>
         zlist_eqb (slash_undel_all amount amount ps) actuals &&
         rclass_eqb (match complete_gen native (last_actual amount ps) with Panic => RPanic | _ => ROk end) (c_obs c)
+    | PCommission r m ch accepted =>
+        Bool.eqb accepted (commission_valid r m ch) && rclass_eqb (c_obs c) ROk
     | PValset nprev el =>
         (* the model (no per-operator data needed: only whether anybody is eligible) predicts acceptance *)
         Bool.eqb (c_later_ok c) (match nprev, el with S _, O => false | _, _ => true end) && rclass_eqb (c_obs c) ROk
